@@ -67,4 +67,7 @@ theorem white_is_T4 : sameRuns CcittTables.WHITE T6.white = true := by decide +k
 theorem black_is_T4 : sameRuns CcittTables.BLACK T6.black = true := by decide +kernel
 theorem mode_is_T6 : modeSpec.all (fun e => CcittTables.MODE.contains e) = true := by decide +kernel
 
+/-- The code word of the extension `x<n>` in pdfminer's regenerated MODE table (`[]` if there is none). -/
+def extCode (n : Nat) : List Bool := (CcittTables.MODE.lookup (.x n)).getD []
+
 end PdfVerif.Ccitt
